@@ -138,9 +138,12 @@ class Oracle:
                 self.bad("C17", f"job serial {s} was finished and is unfinished again")
         # idempotent add
         if t[0] == "add" and t[3] != "-":
-            old = self.pre_ids.get(t[3])
+            from . import qsim as _q
+
+            rid = _q.parse_id(t[3])
+            old = self.pre_ids.get(rid)
             if old is not None and old.error != "killed":
-                if wq.count != self.pre_count or wq.id2job.get(t[3]) is not old or outs[0] != "id=" + t[3]:
+                if wq.count != self.pre_count or wq.id2job.get(rid) is not old or outs[0] != "id=" + t[3]:
                     self.bad("C17", f"add under existing id {t[3]} created a second job / returned {outs[0]}")
         # locations (C16)
         quiescent = not sim.proxy.captured
@@ -228,17 +231,19 @@ class Gen:
         return self.rng.choice(cands)
 
     def some_id(self, sim, prefer_running_of=None):
+        from .qsim import fmt_id
+
         wq = sim.workq
         r = self.rng
         if prefer_running_of is not None and r.random() < 0.75:
             c = sim.conns.get(prefer_running_of)
             if c and c.handler.running_jobs:
                 k = r.choice(list(c.handler.running_jobs))
-                return f"#{k}" if isinstance(k, int) else k
+                return fmt_id(k)
         ids = list(wq.id2job)
         if ids and r.random() < 0.9:
             k = r.choice(ids)
-            return f"#{k}" if isinstance(k, int) else k
+            return fmt_id(k)
         return r.choice(["#99", "n9"])
 
     def next(self, sim):
@@ -267,7 +272,9 @@ class Gen:
             jid = "-" if r.random() < 0.6 else r.choice(self.names)
             return f"add {r.randrange(self.nchan)} {r.choice([0, 0, 1, -1])} {jid} {r.choice([50, 50, 120, 200])} {r.randrange(10)}"
         if op == "readd":
-            ids = [k for k in wq.id2job if isinstance(k, str)]
+            from .qsim import fmt_id
+
+            ids = [fmt_id(k) for k in wq.id2job if isinstance(k, str)]
             jid = r.choice(ids) if ids else r.choice(self.names)
             return f"add {r.randrange(self.nchan)} {r.choice([0, 1])} {jid} {r.choice([50, 120])} {r.randrange(10)}"
         if op == "pull":
